@@ -240,9 +240,9 @@ impl Check for C05C {
     }
     fn meta(&self) -> Meta {
         Meta {
-            rule: "documents (8 hand-picked ones with attributes, mixed content, comments, PIs, namespaces, a DTD default, references and CDATA, xml:lang, keyword-named elements; plus every element skeleton up to the bound, bare and with one decoration) x expressions generated from the reference AST grammar: (A) every axis x 9 node tests x 14 predicate lists evaluated from every element, attribute, text, comment, PI and the root; (B) three-step paths with at most k slots (axis / test / predicate) differing from child::*, also below //; (C) unions, filter expressions (P)[n], (P|Q)[n], (P)[n]/Q and (P)[n]//node(), core functions and all comparison operators over a pool of 25 node-set paths, lang(), name()/string()/number() without argument, nested predicates using position() and last() at two levels. Each expression is rendered from its AST, evaluated by xml_xpath::query on the merged-text DOM (and on the raw DOM of every document in which the two views coincide: no references, CDATA sections or adjacent character data in content) and by the reference evaluator on the XPath data model built from the abstract document; node-sets must contain exactly the expected nodes, each once, in document order (the order among one element's attributes / namespace nodes is left open); scalars compare exactly. One case = one document (all expressions). Non-trivial = a non-empty result.",
-            bounds_quick: "8 + 125 documents (skeletons <= 4 elements, bare and with one decoration), k = 1",
-            bounds_thorough: "8 + 419 documents (skeletons <= 5 elements, bare and with one decoration), k = 2",
+            rule: "documents (10 hand-picked ones with attributes, mixed content, comments, PIs, namespaces, a DTD default, references and CDATA, xml:lang, keyword-named elements, a DOCTYPE between prolog comments and PIs, empty CDATA sections; plus every element skeleton up to the bound, bare and with one decoration) x expressions generated from the reference AST grammar: (A) every axis x 9 node tests x 14 predicate lists evaluated from every element, attribute, text, comment, PI and the root; (B) three-step paths with at most k slots (axis / test / predicate) differing from child::*, also below //; (C) unions, filter expressions (P)[n], (P|Q)[n], (P)[n]/Q and (P)[n]//node(), core functions and all comparison operators over a pool of 25 node-set paths, lang(), name()/string()/number() without argument, nested predicates using position() and last() at two levels. Each expression is rendered from its AST, evaluated by xml_xpath::query on the merged-text DOM (and on the raw DOM of every document in which the two views coincide: no references, CDATA sections or adjacent character data in content) and by the reference evaluator on the XPath data model built from the abstract document; node-sets must contain exactly the expected nodes, each once, in document order (the order among one element's attributes / namespace nodes is left open); scalars compare exactly. One case = one document (all expressions). Non-trivial = a non-empty result.",
+            bounds_quick: "10 + 125 documents (skeletons <= 4 elements, bare and with one decoration), k = 1",
+            bounds_thorough: "10 + 419 documents (skeletons <= 5 elements, bare and with one decoration), k = 2",
             assumptions: &["trusts mc/src/model/xpath.rs as the reading of XPath 1.0 (DESIGN.md Appendix C)", "no caller namespace bindings here (C10 varies them)"],
             unbounded_total: false,
         }
